@@ -295,10 +295,11 @@ def make_sel(Slice, sel):
     return Slice.Sample(sel[1])
 
 
-def impl_call(mods, lf, fa, sel, chans):
+def impl_call(mods, lf, fa, selobj, chans):
+    """`selobj` is a Slice/Sample OBJECT (or None) that may already have been applied to other frame arrays"""
     LogicalFile, Slice, np = mods
     try:
-        n = lf.populate_frame_array(fa, make_sel(Slice, sel), None if chans is None else {c.decode('ascii') for c in chans})
+        n = lf.populate_frame_array(fa, selobj, None if chans is None else {c.decode('ascii') for c in chans})
     except Exception as err:
         return 'err ' + type(err).__name__, None
     return f'ok {n} ' + impl_arrays_txt(np, fa), n
@@ -320,23 +321,54 @@ def expected_call(np, ft, rows, sel, chans):
 
 # ------------------------------------------------------------------ one case
 
-def run_case(ctx, mods, lp, frames, recs, calls_by_ft, model_index, model_pop, record=True):
+def run_case(ctx, mods, lp, frames, recs, calls_by_ft, model_index, model_pop, record=True, order=None, hist='once'):
     """Index the file and run the populate histories on the implementation; compare with the model replies (if given)
-    and evaluate the oracle.  Returns the list of oracle failure details."""
+    and evaluate the oracle.  Returns the list of oracle failure details.
+
+    `order`: the interleaving of the per-frame-type histories (a list of frame type indexes); equal selector VALUES are
+    served by ONE Slice/Sample object for the whole case, so the same object is applied to frame arrays of different
+    lengths in both orders.  `hist`: 'once' | 'reenter' (leave and re-enter the same LogicalIndex half way: the number
+    of logical files, the position map and every later populate must still equal the encoded content)."""
     LogicalFile, Slice, np = mods
     c03 = _c03()
     fails = []
+    if order is None:
+        order = [k for k, v in calls_by_ft.items() for _ in v]
     case = {'lp': [{'name': [ft['name'][0], ft['name'][1], ft['name'][2].hex()],
                     'chans': [{'ident': c['ident'].hex(), 'rc': c['rc'], 'dims': c['dims']} for c in ft['chans']]} for ft in lp],
             'frames': frames, 'recs': [[e, x, ty, b.hex()] for e, x, ty, b in recs],
-            'calls': {str(k): [[s, None if c is None else [i.hex() for i in c]] for s, c in v] for k, v in calls_by_ft.items()}}
+            'calls': {str(k): [[s, None if c is None else [i.hex() for i in c]] for s, c in v] for k, v in calls_by_ft.items()},
+            'order': order, 'hist': hist}
     li, data = impl_open(mods, recs, ctx.rng if record else None)
     pos = [i for i, r in enumerate(recs) if not r[0] and not r[1]]       # record ordinals of the frame records
+    seen, want_parts = [], {}
+    for p, f in zip(pos, frames):
+        if f['vals'] is None: continue
+        k = f['ft']
+        if k not in seen: seen.append(k)
+        want_parts.setdefault(k, []).append(f"{p} {f['no']} {x_canon(np, expected_elem(np, lp[k]['chans'][0]['rc'], f['vals'][0][0]))}")
+    wtxt = ' '.join(['ok', str(len(seen))] + [' '.join([str(lp[k]['name'][0]), str(lp[k]['name'][1]), c03.hx(lp[k]['name'][2]),
+                                                     str(len(want_parts[k]))] + want_parts[k]) for k in seen])
+    mrep = {}
+    for k in calls_by_ft:
+        if model_pop is not None and k in model_pop:
+            mr = model_pop[k]
+            if mr.startswith('ok'):
+                mrep[k] = mr.split(' | ')[1:]
+            else:
+                ctx.corr('populate', {'op': 'populate', 'ft': k}, 'index ok', mr)
+    segments = [order] if hist == 'once' or len(order) < 2 else [order[:len(order) // 2], order[len(order) // 2:]]
+    ptr = {k: 0 for k in calls_by_ft}
+    pool, last_n = {}, {}
     try:
-      with li:
+      for seg_i, seg in enumerate(segments):
+        with li:
+          ctx.count('oracle_cases')
+          if len(li.logical_files) != 1:
+              fails.append(f'enter #{seg_i}: the file has 1 logical file, the index presents {len(li.logical_files)}')
+              break
           lf = li.logical_files[0]
           # log pass structure
-          ctx.count('oracle_cases')
           got = [[(ch.ident, ch.rep_code, list(ch.dimensions)) for ch in fa.channels] for fa in lf.log_pass.frame_arrays]
           want = [[(c['ident'].decode('ascii'), c['rc'], c['dims']) for c in ft['chans']] for ft in lp]
           if got != want:
@@ -344,58 +376,52 @@ def run_case(ctx, mods, lp, frames, recs, calls_by_ft, model_index, model_pop, r
           # index: frame count, X and frame number
           itxt = impl_index_txt(mods, li, lf)
           if model_index is not None:
-              ctx.corr('index', {'op': 'index', 'lp': lp_txt(lp), 'recs': recs_txt(recs)}, itxt, model_index_cast(np, lp, model_index))
+              ctx.corr('index', {'op': 'index', 'enter': seg_i, 'lp': lp_txt(lp), 'recs': recs_txt(recs)}, itxt, model_index_cast(np, lp, model_index))
           ctx.count('oracle_cases')
-          seen, want_parts = [], {}
-          for p, f in zip(pos, frames):
-              if f['vals'] is None: continue
-              k = f['ft']
-              if k not in seen: seen.append(k)
-              want_parts.setdefault(k, []).append(f"{p} {f['no']} {x_canon(np, expected_elem(np, lp[k]['chans'][0]['rc'], f['vals'][0][0]))}")
-          wtxt = ' '.join(['ok', str(len(seen))] + [' '.join([str(lp[k]['name'][0]), str(lp[k]['name'][1]), c03.hx(lp[k]['name'][2]),
-                                                           str(len(want_parts[k]))] + want_parts[k]) for k in seen])
           if itxt != wtxt:
-              fails.append(f'position map differs: got {itxt[:200]!r} want {wtxt[:200]!r}')
-          # populate histories
-          for k, calls in calls_by_ft.items():
+              fails.append(f'enter #{seg_i}: position map differs: got {itxt[:200]!r} want {wtxt[:200]!r}')
+          # populate histories, interleaved over the frame types
+          for k in seg:
+              j = ptr[k]; ptr[k] += 1
+              sel, chans = calls_by_ft[k][j]
               ft = lp[k]
               fa = lf.log_pass.frame_arrays[k]
               rows = [f['vals'] for f in frames if f['ft'] == k and f['vals'] is not None]
-              mreplies = None
-              if model_pop is not None and k in model_pop:
-                  mr = model_pop[k]
-                  mreplies = mr.split(' | ')[1:] if mr.startswith('ok') else None
-                  if mreplies is None:
-                      ctx.corr('populate', {'op': 'populate', 'ft': k}, 'index ok', mr)
-              for j, (sel, chans) in enumerate(calls):
-                  out, n = impl_call(mods, lf, fa, sel, chans)
-                  if mreplies is not None:
-                      m = mreplies[j]
-                      if m.startswith('ok'):
-                          t = m.split(' ', 2)
-                          m = f'ok {t[1]} ' + model_arrays_cast(np, ft, t[2])
-                      ctx.corr('populate', {'op': 'populate', 'ft': k, 'call': j, 'sel': sel}, out, m)
-                  ctx.count('oracle_cases')
-                  want, idx = expected_call(np, ft, rows, sel, chans)
-                  if not idx:
-                      ctx.count('calls_selecting_nothing')
-                      if not out.startswith('err ExceptionFrameArray'):
-                          fails.append(f'frame type {k} call {j} {sel}: selecting no frame gave {out[:80]!r}')
-                      continue
-                  if out != want:
-                      fails.append(f'frame type {k} call {j} sel={sel} chans={chans}: got {out[:160]!r} want {want[:160]!r}')
-                  elif record:
-                      ctx.count('calls_ok')
-                      sub = chans is not None and any(c['ident'] not in chans for c in ft['chans'][1:])
-                      if 2 <= len(idx) < len(rows) or sub:
-                          ctx.nontriv((hash(data), k, j))
-                      if sub: ctx.count('calls_channel_subset')
-                      if sel is not None: ctx.count('calls_' + sel[0])
-                      if sel is not None and sel[0] == 'slice' and sel[3] is not None and sel[3] < 0:
-                          ctx.count('calls_slice_negative_step')
-                          if len(idx) >= 2: ctx.count('calls_slice_negative_step_reversed_rows')
-                      if sel is not None and sel[0] == 'slice' and sel[3] is not None and abs(sel[3]) > len(rows): ctx.count('calls_slice_step_beyond_n')
-                      if any(len(c['dims']) >= 2 for c in ft['chans']): ctx.count('calls_multidim')
+              key = repr(sel)
+              if sel is not None and key not in pool:
+                  pool[key] = make_sel(Slice, sel)
+              elif sel is not None and record and last_n.get(key) not in (None, len(rows)):
+                  ctx.count('selector_object_reused_on_' + ('longer' if len(rows) > last_n[key] else 'shorter') + '_frame_array')
+              last_n[key] = len(rows)
+              out, n = impl_call(mods, lf, fa, None if sel is None else pool[key], chans)
+              if k in mrep:
+                  m = mrep[k][j]
+                  if m.startswith('ok'):
+                      t = m.split(' ', 2)
+                      m = f'ok {t[1]} ' + model_arrays_cast(np, ft, t[2])
+                  ctx.corr('populate', {'op': 'populate', 'ft': k, 'call': j, 'sel': sel}, out, m)
+              ctx.count('oracle_cases')
+              want, idx = expected_call(np, ft, rows, sel, chans)
+              if not idx:
+                  ctx.count('calls_selecting_nothing')
+                  if not out.startswith('err ExceptionFrameArray'):
+                      fails.append(f'frame type {k} call {j} {sel}: selecting no frame gave {out[:80]!r}')
+                  continue
+              if out != want:
+                  fails.append(f'frame type {k} ({len(rows)} frames) call {j} sel={sel} chans={chans}: got {out[:160]!r} want {want[:160]!r}')
+              elif record:
+                  ctx.count('calls_ok')
+                  sub = chans is not None and any(c['ident'] not in chans for c in ft['chans'][1:])
+                  if 2 <= len(idx) < len(rows) or sub:
+                      ctx.nontriv((hash(data), k, j))
+                  if sub: ctx.count('calls_channel_subset')
+                  if sel is not None: ctx.count('calls_' + sel[0])
+                  if seg_i > 0: ctx.count('calls_after_reenter')
+                  if sel is not None and sel[0] == 'slice' and sel[3] is not None and sel[3] < 0:
+                      ctx.count('calls_slice_negative_step')
+                      if len(idx) >= 2: ctx.count('calls_slice_negative_step_reversed_rows')
+                  if sel is not None and sel[0] == 'slice' and sel[3] is not None and abs(sel[3]) > len(rows): ctx.count('calls_slice_step_beyond_n')
+                  if any(len(c['dims']) >= 2 for c in ft['chans']): ctx.count('calls_multidim')
     except Exception as err:   # a well-formed file and a selection of at least one frame must not raise
         fails.append(f'indexing or populating a well-formed file raised {type(err).__name__}: {str(err)[:120]}')
     if record:
@@ -407,7 +433,7 @@ def run_case(ctx, mods, lp, frames, recs, calls_by_ft, model_index, model_pop, r
 def run(ctx):
     mods = _mods()
     rng = ctx.rng
-    N = ctx.n(3000, 20000)
+    N = ctx.n(2500, 18000)
     cases = []
     for _ in range(N):
         lp = gen_logpass(rng)
@@ -415,7 +441,7 @@ def run(ctx):
         cases.append((lp, frames))
     enc = ctx.lean([f'encfile {lp_txt(lp)} {frames_txt(lp, fr)}' for lp, fr in cases])
     c03 = _c03()
-    all_recs, all_frames, all_calls = [], [], []
+    all_recs, all_frames, all_calls, all_orders, all_hists = [], [], [], [], []
     for (lp, frames), reply in zip(cases, enc):
         base = c03.parse_recs(reply)
         recs, fr2 = list(base[:4]), []
@@ -430,6 +456,17 @@ def run(ctx):
             n = sum(1 for f in frames if f['ft'] == k and f['vals'] is not None)
             if n == 0: continue
             calls[k] = [(gen_sel(rng, n), gen_chans(rng, ft)) for _ in range(rng.randint(2, 6))]
+        # selector values shared by the frame types (served by ONE object per value): None / negative / beyond-the-end bounds
+        ns = [sum(1 for f in frames if f['ft'] == k and f['vals'] is not None) for k in calls]
+        for _s in range(rng.randint(1, 2) if len(calls) > 1 else rng.randint(0, 1)):
+            shared = gen_sel(rng, rng.choice(ns))
+            if shared is None: continue
+            for k in calls:
+                for _r in range(rng.choice([1, 1, 2])):
+                    calls[k].insert(rng.randint(0, len(calls[k])), (shared, gen_chans(rng, lp[k])))
+        order = [k for k, v in calls.items() for _ in v]
+        rng.shuffle(order)
+        all_orders.append(order); all_hists.append('reenter' if rng.random() < 0.3 else 'once')
         all_calls.append(calls)
         for k in range(len(lp)): ctx.count('frame_types')
         ctx.count('channels', sum(len(ft['chans']) for ft in lp))
@@ -447,7 +484,8 @@ def run(ctx):
     for (ci, k), r in zip(pkey, prep):
         mpop.setdefault(ci, {})[k] = r
     for ci, ((lp, _), frames, recs, calls) in enumerate(zip(cases, all_frames, all_recs, all_calls)):
-        run_case(ctx, mods, lp, frames, recs, calls, midx[ci], mpop.get(ci, {}))
+        run_case(ctx, mods, lp, frames, recs, calls, midx[ci], mpop.get(ci, {}), order=all_orders[ci], hist=all_hists[ci])
+        ctx.count('history_' + all_hists[ci])
         if ci == 0:
             ctx.sample({'lp': lp_txt(lp), 'n_records': len(recs), 'calls': {k: [[sel_txt(s), chans_txt(c)] for s, c in v] for k, v in calls.items()},
                         'model_reply': (prep[0][:300] if prep else '')})
@@ -463,7 +501,7 @@ def replay(ctx, rec):
            'chans': [{'ident': bytes.fromhex(c['ident']), 'rc': c['rc'], 'dims': c['dims']} for c in ft['chans']]} for ft in case['lp']]
     recs = [(e, x, ty, bytes.fromhex(b)) for e, x, ty, b in case['recs']]
     calls = {int(k): [(s, None if c is None else [bytes.fromhex(i) for i in c]) for s, c in v] for k, v in case['calls'].items()}
-    fails = run_case(ctx, mods, lp, case['frames'], recs, calls, None, None, record=False)
+    fails = run_case(ctx, mods, lp, case['frames'], recs, calls, None, None, record=False, order=case.get('order'), hist=case.get('hist', 'once'))
     if fails:
         return False, fails[0]
     return True, 'index and every populate call equal the recorded values'
